@@ -417,3 +417,5 @@ def run(tier, seed):
         shards.append(("unit", 2, True, 1, seed + 1))
     col = run_shards(_shard, shards)
     return col, {"exhaustive": col.counters.get("caps_hit", 0) == 0, "fault_alphabet": FAULTS, "configs": list(CONFIGS)}
+
+RULE += (' Beyond small: batches of 31..257 with scripted failures, 260 x 4 and 513 x 2 failures in one run (more than a thousand logged); objectives that return unusual values are not failures.')
